@@ -58,9 +58,9 @@ SPEC = dict(
                'the functions are pure, straight-line floating-point code whose input space is a continuum that can only be sampled.',
     level_note='trusted: libquadmath/__float128 arithmetic of gcc 12, the harness references (power sums, falling factorials, the closed '
                'forms copied from the header documentation); the residual constants 2^8/2^13/2^19 are calibrated, not derived - worst '
-               'observed ratios (thorough, 16.8M data sets per seed, seeds 1..5) stay near 17 / 550 / 3.2e4, i.e. >= 15x below the bound, '
+               'observed ratios (thorough, 16.8M data sets per seed, seeds 1..5) reach 18.0 / 578 / 3.48e4 (cubic / quintic / septic), i.e. >= 14x below the bound, '
                'while a wrong constant or sign moves a residual by Omega(S) = 1e9 x the bound; the a-priori Horner bounds are rigorous '
-               '(observed <= 0.55 of the bound). Negative or non-finite durations, subnormal/huge data and the float build are not explored.',
+               '(observed <= 0.61 of the bound). Negative or non-finite durations, subnormal/huge data and the float build are not explored.',
     technique='randomised input sweep with boundary-condition residual monitors, __float128 reference evaluation with a-priori error '
               'bounds, exact-arithmetic regime with bitwise oracles, under ASan+UBSan',
 )
